@@ -3,7 +3,9 @@ package limitlistener
 // Harness for C17 (DESIGN 5/C17), listener level: the real LimitListener over an inner listener
 // the harness feeds (in-memory net.Pipe connections, or real loopback TCP).
 //   TestVerifC17LLTrace   - seeded concurrent histories: clients dial and hang up, the handler side
-//                           closes (also twice / concurrently), the inner Accept fails now and then,
+//                           closes (also twice / from two goroutines at once, the two calls really
+//                           overlapping inside a slow close of the underlying connection: c17SlowConn),
+//                           the inner Accept fails now and then,
 //                           the cap is changed through SetMaxConnection (completion unobservable) or
 //                           through the semaphore's SetMaxCount (done channel observed); calls with the
 //                           value already configured; in a third of the histories the clients stay
@@ -11,7 +13,9 @@ package limitlistener
 //   TestVerifC17LLReplay  - TLC-generated schedules of specs/ConnCap.tla executed step by step: the
 //                           acceptor's Accept call, the inner Accept's return (or failure), closes,
 //                           SetMaxCount calls and - through the gate hook when the tree has it - the
-//                           order of the background adjustments  (MBT schedules)
+//                           order of the background adjustments; two overlapping Close calls on one
+//                           connection and the order in which they come out of the underlying
+//                           close (close2 / crel / cnop)  (MBT schedules)
 // Events are those of specs/ConnCap_Trace.tla.  The harness never judges: TLC validates the log.
 
 import (
@@ -206,7 +210,129 @@ func (in *c17TCPInner) Accept() (net.Conn, error) {
 	if fail {
 		return nil, c17TempErr{}
 	}
-	return in.Listener.Accept()
+	c, err := in.Listener.Accept()
+	if err != nil {
+		return nil, err
+	}
+	return &c17SlowConn{Conn: c}, nil
+}
+
+// ---- connections whose Close takes a while
+
+// c17SlowConn is the server-side end of a client connection as the inner listener hands it out.  Its
+// Close can be slow: once the harness has armed it (two Close calls are about to be made on the
+// accepted connection at the same time) a caller that enters Close stays inside until
+//   - rendezvous mode (TV): the second caller has entered as well, or c17Overlap has passed (an
+//     implementation is free to serialise the calls itself; then only one ever enters);
+//   - parked mode (schedule replay): the harness lets it out (letOut), one caller at a time.
+// So the two calls overlap inside the close of the underlying connection for certain, not by luck
+// (closing a net.Pipe end or a loopback socket takes no time at all).
+type c17SlowConn struct {
+	net.Conn
+	mu     sync.Mutex
+	armed  bool
+	parked bool
+	in     int             // callers that entered Close since it was armed
+	both   chan struct{}   // closed when the second one has entered
+	hold   []chan struct{} // parked mode: one per caller inside, nil once let out
+	once   sync.Once
+	err    error
+}
+
+const c17Overlap = 30 * time.Millisecond
+
+// c17ConnAddr is what a c17SlowConn reports as its local address: the harness finds the inner
+// connection of an accepted one through it, whatever the listener wraps it in.
+type c17ConnAddr struct{ sc *c17SlowConn }
+
+func (c17ConnAddr) Network() string { return "c17" }
+func (c17ConnAddr) String() string  { return "c17conn" }
+
+func (s *c17SlowConn) LocalAddr() net.Addr { return c17ConnAddr{s} }
+
+func c17SlowOf(c net.Conn) *c17SlowConn {
+	if a, ok := c.LocalAddr().(c17ConnAddr); ok {
+		return a.sc
+	}
+	return nil
+}
+
+func (s *c17SlowConn) arm(parked bool) {
+	s.mu.Lock()
+	defer s.mu.Unlock()
+	s.armed, s.parked, s.in, s.both = true, parked, 0, make(chan struct{})
+}
+
+func (s *c17SlowConn) Close() error {
+	s.mu.Lock()
+	armed, both := s.armed, s.both
+	var park chan struct{}
+	if armed {
+		s.in++
+		if s.in == 2 {
+			close(s.both)
+		}
+		if s.parked {
+			park = make(chan struct{})
+			s.hold = append(s.hold, park)
+		}
+	}
+	s.mu.Unlock()
+	if park != nil {
+		<-park
+	} else if armed {
+		select {
+		case <-both:
+		case <-time.After(c17Overlap):
+		}
+	}
+	s.once.Do(func() { s.err = s.Conn.Close() })
+	return s.err
+}
+
+func (s *c17SlowConn) inside() int {
+	s.mu.Lock()
+	defer s.mu.Unlock()
+	return s.in
+}
+
+// letOut lets the oldest parked caller out of Close; all = true: everybody, and later callers pass.
+func (s *c17SlowConn) letOut(all bool) {
+	s.mu.Lock()
+	defer s.mu.Unlock()
+	for i, ch := range s.hold {
+		if ch != nil {
+			close(ch)
+			s.hold[i] = nil
+			if !all {
+				return
+			}
+		}
+	}
+	if all {
+		s.parked, s.armed = false, false
+	}
+}
+
+// c17Dbl is a connection of the replay that two overlapping Close calls are busy with.
+type c17Dbl struct {
+	sc   *c17SlowConn
+	fin  chan struct{} // one token per Close call that has returned
+	seen int           // calls seen returned
+	out  int           // 0: both inside, 1: the first one was let out
+}
+
+func (d *c17Dbl) waitReturned(k int, dl time.Duration) bool {
+	deadline := time.After(dl)
+	for d.seen < k {
+		select {
+		case <-d.fin:
+			d.seen++
+		case <-deadline:
+			return false
+		}
+	}
+	return true
 }
 
 // ---- TV
@@ -323,7 +449,10 @@ func TestVerifC17LLTrace(t *testing.T) {
 					case 1: // close twice
 						c.Close()
 						c.Close()
-					case 2: // close concurrently from two goroutines
+					case 2: // close from two goroutines at once, both inside the underlying close at the same time
+						if sc := c17SlowOf(c); sc != nil {
+							sc.arm(false)
+						}
 						var cw sync.WaitGroup
 						cw.Add(2)
 						for k := 0; k < 2; k++ {
@@ -355,7 +484,7 @@ func TestVerifC17LLTrace(t *testing.T) {
 					cl = c
 				} else {
 					a, b := net.Pipe()
-					pin.q <- b
+					pin.q <- &c17SlowConn{Conn: b}
 					cl = a
 				}
 				<-holdUntil
@@ -458,7 +587,7 @@ func TestVerifC17LLTrace(t *testing.T) {
 				cl = c
 			} else {
 				a, b := net.Pipe()
-				pin.q <- b
+				pin.q <- &c17SlowConn{Conn: b}
 				cl = a
 			}
 			probes = append(probes, cl)
@@ -613,7 +742,8 @@ func c17Wait(ch <-chan struct{}, d time.Duration) bool {
 // c17RConn is an accepted connection of the replay with its handler-side reader.
 type c17RConn struct {
 	c      net.Conn
-	peer   net.Conn // the client's end, known once it is needed
+	sc     *c17SlowConn // the inner connection underneath
+	peer   net.Conn     // the client's end
 	sawEOF chan struct{}
 	eof    bool
 }
@@ -641,7 +771,8 @@ func TestVerifC17LLReplay(t *testing.T) {
 		accRes := make(chan error, 64)
 		var cmu sync.Mutex
 		var conns []*c17RConn
-		peerOf := map[net.Conn]net.Conn{} // inner (server side) end -> client end
+		peerOf := map[*c17SlowConn]net.Conn{} // inner (server side) end -> client end
+		var dbls []*c17Dbl                    // connections two overlapping Close calls are busy with
 		accExit := make(chan struct{})
 		go func() {
 			defer close(accExit)
@@ -653,9 +784,9 @@ func TestVerifC17LLReplay(t *testing.T) {
 				} else {
 					g.acc("a")
 					rc := &c17RConn{c: c, sawEOF: make(chan struct{})}
-					if lc, ok := c.(*limitListenerConn); ok {
+					if rc.sc = c17SlowOf(c); rc.sc != nil {
 						cmu.Lock()
-						rc.peer = peerOf[lc.Conn]
+						rc.peer = peerOf[rc.sc]
 						cmu.Unlock()
 					}
 					go func() { // the handler's reader: notices when the peer finishes
@@ -688,10 +819,11 @@ func TestVerifC17LLReplay(t *testing.T) {
 			case "dial":
 				a, b := net.Pipe()
 				clients = append(clients, a)
+				sb := &c17SlowConn{Conn: b}
 				cmu.Lock()
-				peerOf[b] = a
+				peerOf[sb] = a
 				cmu.Unlock()
-				inner.q <- b
+				inner.q <- sb
 			case "acq":
 				accCmd <- struct{}{}
 				inAccept = true
@@ -759,6 +891,74 @@ func TestVerifC17LLReplay(t *testing.T) {
 				g.closing()
 				rc.c.Close()
 				rc.c.Close() // idempotent: releases once
+			case "close2":
+				// two Close calls on one connection, both inside the close of the underlying connection
+				want := vx.Bool(st["eof"])
+				cmu.Lock()
+				var rc *c17RConn
+				for k, x := range conns {
+					if x.eof == want {
+						rc = x
+						conns = append(conns[:k:k], conns[k+1:]...)
+						break
+					}
+				}
+				cmu.Unlock()
+				if rc == nil || rc.sc == nil {
+					div = "model closes a connection from two goroutines, none of that kind is open"
+					break
+				}
+				g.closing()
+				d := &c17Dbl{sc: rc.sc, fin: make(chan struct{}, 2)}
+				dbls = append(dbls, d)
+				rc.sc.arm(true)
+				for k := 0; k < 2; k++ {
+					go func() { rc.c.Close(); d.fin <- struct{}{} }()
+				}
+				// both inside - unless the implementation serialises Close calls itself (then one is inside and
+				// the other waits for it: the steps below still let them out one after the other)
+				for dl := time.Now().Add(100 * time.Millisecond); rc.sc.inside() < 2 && time.Now().Before(dl); {
+					time.Sleep(100 * time.Microsecond)
+				}
+				if rc.sc.inside() < 2 {
+					g.note(vx.M{"k": "close-serialised", "beh": bi, "step": si + 1})
+				}
+			case "crel":
+				// the first of the two comes out of the underlying close (and gives the slot back)
+				var d *c17Dbl
+				for _, x := range dbls {
+					if x.out == 0 {
+						d = x
+						break
+					}
+				}
+				if d == nil {
+					div = "model lets a Close call out, none is inside"
+					break
+				}
+				d.out = 1
+				d.sc.letOut(false)
+				if !d.waitReturned(1, 300*time.Millisecond) {
+					div = "Close did not return after the underlying close did"
+				}
+			case "cnop":
+				// the second one comes out
+				var d *c17Dbl
+				for k, x := range dbls {
+					if x.out == 1 {
+						d = x
+						dbls = append(dbls[:k:k], dbls[k+1:]...)
+						break
+					}
+				}
+				if d == nil {
+					div = "model lets the second Close call out, none is inside"
+					break
+				}
+				d.sc.letOut(true)
+				if !d.waitReturned(2, 300*time.Millisecond) {
+					div = "second Close did not return after the underlying close did"
+				}
 			case "setmax":
 				n := vx.Int(st["n"])
 				id := g.rz(n)
@@ -822,10 +1022,11 @@ func TestVerifC17LLReplay(t *testing.T) {
 		if div == "" && !listenerClosed {
 			a, b := net.Pipe()
 			clients = append(clients, a)
+			sb := &c17SlowConn{Conn: b}
 			cmu.Lock()
-			peerOf[b] = a
+			peerOf[sb] = a
 			cmu.Unlock()
-			inner.q <- b
+			inner.q <- sb
 			if !inAccept {
 				accCmd <- struct{}{}
 				inAccept = true
@@ -836,8 +1037,12 @@ func TestVerifC17LLReplay(t *testing.T) {
 			case <-time.After(5 * time.Millisecond):
 			}
 		}
-		// wind down: let every tuner go, hang up everything, close the listener
+		// wind down: let every tuner go, let every Close call out, hang up everything, close the listener
 		gt.releaseAll()
+		for _, d := range dbls {
+			d.sc.letOut(true)
+			d.waitReturned(2, 2*time.Second)
+		}
 		time.Sleep(time.Millisecond)
 		cmu.Lock()
 		rest := conns
